@@ -1,5 +1,5 @@
 From Coq Require Import Extraction ExtrOcamlBasic.
-From CV Require Import Base.Num C15.GridModel C15.GridIOModel C15.GridOpsModel.
+From CV Require Import Base.Num C15.GridModel C15.GridIOModel C15.GridOpsModel C15.TiModel.
 Extraction Language OCaml.
 Extraction "model.ml" mkNumOps nhalf wrap value_to_bin bin_to_value bins index_ok strides nxc ntot
   address incr wrap_index nbins_round mkHistCfg mkHistIn hist_step hist_init hist_run mkGeom remap_target remap
@@ -7,4 +7,4 @@ Extraction "model.ml" mkNumOps nhalf wrap value_to_bin bin_to_value bins index_o
   get_state_params write_restart read_block parse_params read_restart mkCv init_bounds dx_origin dx_delta zeros
   write_raw_bin read_raw_bin normalise denormalise write_multicol_norm read_multicol_norm dec_round fmt_toks gather
   wrap_strict wrap_to_edge value_to_bin_bound bins_bound bin_fraction map_grid add_grid delta_grid multiply_constant add_constant
-  remove_small_values extra_bin_dim init_dim bin_distance_from_boundaries.
+  remove_small_values extra_bin_dim init_dim bin_distance_from_boundaries mkTiIn mkTiState ti_step ti_init ti_run.
